@@ -1058,6 +1058,17 @@ func (h *histRun) checkQuiescent(final bool) {
 					// no references of its own: its sent counter decides nothing
 					ws = hs.IndirectSent
 				}
+				if hs.State == 5 && hs.Direct == 0 && hs.IndirectSent == 0 && hs.Indirect == wantInd[rid] && ws == 0 {
+					// marked as sent to the client although neither a direct
+					// subscription nor a sent parent holds it: the client has
+					// dropped it, a later reference will come without its data
+					sig := "sentWithoutHolder"
+					if h.hasNote("populate.deleted", c.CID, rid) {
+						sig += ".populateDeleted"
+					}
+					h.viol(Viol{Prop: "C02", Conn: c.Idx, T: now, RID: rid, Sig: sig,
+						Msg: fmt.Sprintf("subscription %s is in state sent with no direct subscription and no sent parent (indirect=%d); all subs: %s", rid, hs.Indirect, subsSummary(snap))})
+				}
 				if hs.Indirect != wantInd[rid] || hs.IndirectSent != ws {
 					sig := "refCountDrift"
 					if hs.Indirect == wantInd[rid] {
